@@ -360,9 +360,6 @@ op_tine::next (scon &sc) const
 {
   op_merge::state &mst = m_merge.get_state (sc);
 
-  if (mst.m_done)
-    return nullptr;
-
   if (std::all_of (mst.m_file.begin (), mst.m_file.end (),
 		   [] (stack::uptr const &ptr) { return ptr == nullptr; }))
     {
@@ -427,18 +424,23 @@ stack::uptr
 op_merge::next (scon &sc) const
 {
   state &st = sc.get <state> (m_ll);
-  if (st.m_done)
-    return nullptr;
 
-  while (! st.m_done)
+  while (true)
     {
       if (auto ret = m_ops[st.m_idx]->next (sc))
 	return ret;
+
+      if (st.m_done)
+	{
+	  // Upstream is drained and so are all branches.  Start over, so
+	  // that the merge can be fed again through its origin.
+	  sc.reset <state> (m_ll, m_ops.size ());
+	  return nullptr;
+	}
+
       if (++st.m_idx == m_ops.size ())
 	st.m_idx = 0;
     }
-
-  return nullptr;
 }
 
 std::string
